@@ -127,6 +127,13 @@ def _digest(mol):
 def explore(tier, report):
     from scipy.spatial.transform import Rotation
 
+    INPLACE = [
+        ("translate", lambda m: m.translate(np.array([10.0, -20.0, 30.0]), copy=False)),
+        ("translate_internal", lambda m: m.translate_internal(np.array([1.0, 2.0, 3.0]), copy=False)),
+        ("rotate_by", lambda m: m.rotate_by(Rotation.from_rotvec([[0.3, 0.2, -0.1]] * 3), copy=False)),
+        ("rotate_by_rotvec_internal", lambda m: m.rotate_by_rotvec_internal(np.array([[0.1, 0.0, 0.4]] * 3), copy=False)),
+    ]
+
     from vf.core import acryo_frame
 
     gens = _gen_mats()
@@ -194,6 +201,17 @@ def explore(tier, report):
                                 report.violations.append((f"{ID}|transition|source-modified|{fname}", f"{where}: copy=True altered the original", case))
                             if out is src:
                                 report.violations.append((f"{ID}|transition|copy-returned-self|{fname}", where, case))
+                            # aliasing: an in-place operation on the copy must not reach the original (two-step histories)
+                            if fname in ("rotate_by", "rotate_by_rotvec_internal", "translate", "translate_internal"):
+                                for iname, inplace in INPLACE:
+                                    probe = fn(src, True)
+                                    inplace(probe)
+                                    ntrans += 1
+                                    if _digest(src) != before:
+                                        report.violations.append((f"{ID}|transition|original-altered-through-copy|{fname}->{iname}",
+                                                                  f"{where}: {iname}(copy=False) on the object returned by {fname}(copy=True) altered the original", {**case, "then": iname}))
+                                        src = _build(Rs, Ps)
+                                        before = _digest(src)
                         else:
                             if out is not src:
                                 report.violations.append((f"{ID}|transition|inplace-returned-new|{fname}", where, case))
